@@ -7,7 +7,7 @@ Open Scope string_scope.
 
 Inductive c08case :=
 | mk_c08 (h : hcase) (exp_docs : list obj) (exp_doc : obj) (exp_update_c exp_recovery_c : string) (exp_deactivated : bool) (exp_origin : json)
-         (all_built all_parsed anchored_ok : bool)
+         (all_built all_parsed anchored_ok linked_ok : bool)
 | mk_c08refuse (code : nat) (impl_refused expect_refuse : bool)
 | mk_c08conc (as_sequential : bool)
 (* the builder models run on the builders' inputs: the request bytes (or the refusal) must be the implementation's *)
@@ -48,10 +48,11 @@ Fixpoint docs_as_requested (steps : list hstep) (eds : list obj) : bool :=
 
 Definition judge_c08 (c : c08case) : verdict :=
   match c with
-  | mk_c08 h eds ed eu er edx eo built parsed anch =>
+  | mk_c08 h eds ed eu er edx eo built parsed anch linked =>
       if negb built then SpecFail 1                     (* a builder refused valid input *)
       else if negb parsed then SpecFail 2               (* a built request was refused by the parser *)
       else if negb anch then SpecFail 3                 (* anchored form does not preserve the request *)
+      else if negb linked then SpecFail 10              (* a reveal value does not open the commitment of the state the request is applied to *)
       else match judge_history h with
            | Pass =>
              if negb (docs_as_requested (hc_steps h) eds) then SpecFail 4 else
